@@ -68,6 +68,14 @@ Theorem C14_run_exact : forall is m', run is init_state = Some (Ok m') -> run_le
 Proof. intros is m' H L. exact (run_exact is init_state m' init_exact H L). Qed.
 Print Assumptions C14_run_exact.
 
+(* no leak: after any run on which no opcode forgot a reference, every live object is referenced from the stack, a
+   global, a frame closure or a slot of a live container - whatever is referenced from nowhere has been freed.
+   (Reference cycles, which only hand-made bytecode can build, are referenced and therefore stay.) *)
+Theorem C14_no_leak : forall is m', run is init_state = Some (Ok m') -> run_leaks is init_state = false ->
+  forall x, is_live (hp m') x = true -> In x (roots m' ++ heap_refs (hp m')).
+Proof. intros is m' H L. exact (no_leak m' (run_exact is init_state m' init_exact H L)). Qed.
+Print Assumptions C14_no_leak.
+
 (* the opcodes whose handlers are exact whatever the operands: ENTER NOP PUSH_* DUP POP SWAP ROT3 LOAD/STORE_LOCAL
    LOAD/STORE_GLOBAL LOAD/STORE_UPVALUE, comparisons/logic/JMP_T/F/STR_LEN/ARR_LEN/casts/PRINT/ASSERT (IPopRelease),
    STR_CONCAT, ARR_NEW/PUSH/POP/LITERAL, STRUCT_NEW/GET/SET/LITERAL, UNION_CONSTRUCT/FIELD, TUPLE_NEW/GET, CLOSURE_NEW, CALL *)
